@@ -443,6 +443,14 @@ impl<'n> Builder<'n> {
                 b.push(imp("inx"));
                 vec![Stmt::Braces(b)]
             }
+            Leaf::JmpOuter => vec![ins("jmp", Form::Plain, id("outer"))],
+            Leaf::JmpFwd => vec![ins("jmp", Form::Plain, id("fwd"))],
+            Leaf::InnerLabel => vec![Stmt::Braces(vec![
+                label("il"),
+                imp("dex"),
+                ins("bne", Form::Plain, id("il")),
+            ])],
+            Leaf::InnerMinus => vec![Stmt::Braces(vec![imp("dex"), ins("bne", Form::Plain, id("-"))])],
             Leaf::Lda(vk) => vec![ins("lda", Form::Imm, id(&self.value_name(vk)))],
             Leaf::Byte(vk) => vec![byte(vec![bin(id(&self.value_name(vk)), "+", num(1))])],
         }
